@@ -60,6 +60,28 @@ func hasQuant(ts []*Term) bool {
 	return false
 }
 
+// splitGoal breaks a goal into conjuncts that are proved separately.
+func splitGoal(g *Term) []*Term {
+	if g.Op == "and" && !g.IsVar {
+		var out []*Term
+		for _, a := range g.Args {
+			out = append(out, splitGoal(a)...)
+		}
+		return out
+	}
+	if g.Op == "=>" && len(g.Args) == 2 {
+		parts := splitGoal(g.Args[1])
+		if len(parts) > 1 {
+			var out []*Term
+			for _, p := range parts {
+				out = append(out, Implies(g.Args[0], p))
+			}
+			return out
+		}
+	}
+	return []*Term{g}
+}
+
 // obligationScript builds the refutation query of one obligation.
 func obligationScript(fr *FuncResult, o *Obligation, getVals []*Term) (string, int) {
 	var asserts []*Term
@@ -74,26 +96,46 @@ func obligationScript(fr *FuncResult, o *Obligation, getVals []*Term) (string, i
 	return Script(asserts, getVals, "", 0), TermSize(asserts)
 }
 
-// runSolvers races the portfolio on one script; the first definite answer wins.
+// groundScript is the instantiated weakening of the same query ("" when the query has no quantifier).
+func groundScript(fr *FuncResult, o *Obligation) string {
+	asserts := obligationAsserts(fr, o)
+	if !hasQuant(asserts) {
+		return ""
+	}
+	g := Instantiate(asserts, 2)
+	return Script(g, nil, "", 0)
+}
+
+// runSolvers races the portfolio on one query; the first definite answer wins.
+// ground, when non-empty, is the instantiated weakening of the same query: only its `unsat` counts.
 // When all is true every solver runs to completion and all answers are recorded.
 func runSolvers(script, path string, timeoutS int, all bool, seed int) SolveResult {
+	return runSolvers2(script, "", path, timeoutS, all, seed)
+}
+
+func runSolvers2(script, ground, path string, timeoutS int, all bool, seed int) SolveResult {
 	os.MkdirAll(filepath.Dir(path), 0o755)
 	os.WriteFile(path, []byte(script), 0o644)
+	gpath := strings.TrimSuffix(path, ".smt2") + ".ground.smt2"
+	if ground != "" {
+		os.WriteFile(gpath, []byte(ground), 0o644)
+	}
 	solvers := solverList(timeoutS)
 	type ans struct {
 		name, status, out string
 		secs              float64
+		ground            bool
 	}
 	ctx, cancel := context.WithTimeout(context.Background(), time.Duration(timeoutS+5)*time.Second)
 	defer cancel()
-	ch := make(chan ans, len(solvers))
+	ch := make(chan ans, 2*len(solvers))
 	var wg sync.WaitGroup
-	for _, s := range solvers {
+	launch := func(s Solver, file string, isGround bool) {
 		wg.Add(1)
-		go func(s Solver) {
+		go func() {
 			defer wg.Done()
 			start := time.Now()
-			args := append(append([]string{}, s.Cmd[1:]...), path)
+			args := append(append([]string{}, s.Cmd[1:]...), file)
 			if strings.HasPrefix(s.Name, "z3") && seed != 0 {
 				args = append([]string{fmt.Sprintf("smt.random_seed=%d", seed%1000000), fmt.Sprintf("sat.random_seed=%d", seed%1000000)}, args...)
 			}
@@ -120,8 +162,21 @@ func runSolvers(script, path string, timeoutS int, all bool, seed int) SolveResu
 			case strings.Contains(o, "timeout") || strings.Contains(o, "interrupted"):
 				status = "timeout"
 			}
-			ch <- ans{s.Name, status, o, time.Since(start).Seconds()}
-		}(s)
+			name := s.Name
+			if isGround {
+				name += "+inst"
+				if status == "sat" {
+					status = "unknown" // a model of the weakened query proves nothing
+				}
+			}
+			ch <- ans{name, status, o, time.Since(start).Seconds(), isGround}
+		}()
+	}
+	for _, s := range solvers {
+		launch(s, path, false)
+		if ground != "" {
+			launch(s, gpath, true)
+		}
 	}
 	go func() { wg.Wait(); close(ch) }()
 	res := SolveResult{Status: "unknown", All: map[string]string{}}
@@ -138,7 +193,6 @@ func runSolvers(script, path string, timeoutS int, all bool, seed int) SolveResu
 		if a.status == "sat" && satAns == nil {
 			satAns = &a
 			if !all && res.Status != "unsat" {
-				// a model was found: no point waiting for the others
 				cancel()
 			}
 		}
@@ -150,9 +204,11 @@ func runSolvers(script, path string, timeoutS int, all bool, seed int) SolveResu
 		res.Status, res.Backend, res.Seconds, res.Output = "sat", satAns.name, satAns.secs, satAns.out
 	}
 	if res.Status == "unsat" && satAns != nil {
-		// disagreement between back ends: do not count as proved
 		res.Status = "disagree"
 		res.Output = fmt.Sprintf("%s says unsat, %s says sat", res.Backend, satAns.name)
+	}
+	if ground != "" && res.Status == "unsat" {
+		os.Remove(gpath)
 	}
 	return res
 }
